@@ -1511,8 +1511,9 @@ func (e *Engine) nonNilValue(v ssa.Value) bool {
 // escape summary of a parameter: it may become reachable from unknown places, and/or from the
 // objects other parameters point to.
 type escSum struct {
-	unknown bool
-	into    uint32
+	unknown  bool
+	into     uint32
+	returned bool // the parameter, or a fresh object holding it, is handed back to the caller
 }
 
 // baseOf strips field/element addressing and loads down to the root value.
@@ -1637,6 +1638,7 @@ func (e *Engine) paramEscape(fn *ssa.Function, i int, depth int) escSum {
 		}
 		seen[v] = true
 		for _, r := range *v.Referrers() {
+
 			switch x := r.(type) {
 			case *ssa.FieldAddr, *ssa.IndexAddr, *ssa.DebugRef, *ssa.If, *ssa.BinOp, *ssa.TypeAssert, *ssa.Lookup, *ssa.Range, *ssa.Index, *ssa.Field:
 			case *ssa.UnOp:
@@ -1649,8 +1651,14 @@ func (e *Engine) paramEscape(fn *ssa.Function, i int, depth int) escSum {
 				if x.Value == v || x.Key == v {
 					storedInto(x.Map)
 				}
-			case *ssa.Send, *ssa.MakeClosure, *ssa.Return, *ssa.Go, *ssa.Defer:
+			case *ssa.Send, *ssa.MakeClosure, *ssa.Go, *ssa.Defer:
 				res.unknown = true
+			case *ssa.Return:
+				// handed back to the caller (the parameter itself, or a fresh object that holds it): the caller's frame
+				// decides — a caller of this summary follows the call's result like a local holder
+				res.returned = true
+			case *ssa.Extract:
+				visit(x)
 			case *ssa.MakeInterface:
 				visit(x)
 			case *ssa.ChangeInterface:
@@ -1686,6 +1694,9 @@ func (e *Engine) paramEscape(fn *ssa.Function, i int, depth int) escSum {
 						es := e.paramEscape(cal, j, depth+1)
 						if es.unknown {
 							res.unknown = true
+						}
+						if es.returned {
+							visit(x) // the result may hold it
 						}
 						for k := range args {
 							if es.into&(1<<uint(k)) != 0 {
